@@ -29,6 +29,10 @@ def predecessors(rnd, kind, mx):
             ('header-error', b'GET /p HTTP/1.1\r\nContent-Type: nonsense\r\n\r\n', None),
             ('bad-method', b'BREW /p HTTP/1.1\r\n\r\n', None),
             ('cl-and-te', b'POST /p HTTP/1.1\r\nContent-Length: 3\r\nTransfer-Encoding: chunked\r\n\r\nabc', None),
+            # rejected late in the REQUEST LINE: method, path and query have been stored by then
+            ('bad-version-after-query', b'GET /v?a=1&tok=secret&leak=1 HTTP/2.0\r\nHost: a\r\n\r\n', None),
+            ('no-version-after-query', b'PUT /v?tok=secret&leak=1\r\n\r\n', None),
+            ('bad-version-no-query', b'DELETE /gone HTTP/9.9\r\n\r\n', None),
         ]
     return [
         ('bodyless', b'HTTP/1.1 204 No Content\r\nServer: x\r\n\r\n', None),
@@ -50,6 +54,9 @@ def gen(tier, rnd):
             succs = [(G.request(rnd) if kind == 'req' else G.response(rnd)) for _ in range(n)]
             succs += [b'POST /next HTTP/1.1\r\nContent-Length: 12\r\n\r\nHELLO WORLD!' if kind == 'req' else b'HTTP/1.1 200 OK\r\nContent-Length: 12\r\n\r\nHELLO WORLD!',
                       b'POST /next HTTP/1.1\r\nTransfer-Encoding: chunked\r\n\r\nc\r\nHELLO WORLD!\r\n0\r\n\r\n' if kind == 'req' else b'HTTP/1.1 200 OK\r\nTransfer-Encoding: chunked\r\n\r\nc\r\nHELLO WORLD!\r\n0\r\n\r\n']
+            if kind == 'req':
+                # successors whose query shares a key with the predecessor's (Query::add keeps the first value) and without any query
+                succs += [b'GET /next?tok=mine&a=2 HTTP/1.1\r\nHost: a\r\n\r\n', b'GET /plain HTTP/1.1\r\nHost: a\r\n\r\n']
             succs = [s for s in succs if len(s) <= mx]
             for name, pm, force in preds:
                 for sm in succs:
